@@ -409,6 +409,17 @@ func (p *projSpec) applyDiskEdit(root string, op *opSpec) {
 	case "restore-source":
 		os.Remove(filepath.Join(root, op.Path))
 		writeEntry(root, op.Path, p.Files[op.Path])
+	case "scribble-generated":
+		// a generated file is modified in place (by hand, by another tool)
+		if t := p.target(op.Label); t != nil {
+			for i, g := range t.Generates {
+				if full := filepath.Join(root, pkgDir(t.Pkg), g); op.N == 0 || op.N-1 == i {
+					if _, err := os.Stat(full); err == nil {
+						os.WriteFile(full, []byte(fmt.Sprintf("scribbled over %d\n", op.N)), 0644)
+					}
+				}
+			}
+		}
 	case "delete-generated":
 		if t := p.target(op.Label); t != nil {
 			for i, g := range t.Generates {
